@@ -1396,6 +1396,8 @@ pub fn gen_case(seed: u64, idx: u64) -> Option<(HistCase, Rng, GenOpsCfg)> {
         gcfg.allow_regex = gcfg.allow_text && rng.chance(2, 3);
     }
     gcfg.allow_pad = gcfg.allow_text || rng.chance(1, 8);
+    // nested_in over a region (fresh inner input of the same kind): byte subjects that are not sync-built
+    gcfg.allow_nest = matches!(pick, 3..=8) && rng.chance(1, 4);
     if gcfg.allow_text || gcfg.allow_pad {
         gcfg.nsym = crate::tok::NSYM_TEXT;
     }
